@@ -55,6 +55,8 @@ class Put(Event, ContextManager['Put'], Generic[ResourceType]):
         """
         if not self.triggered:
             self.resource.put_queue.remove(self)
+            # the requests behind this one may be satisfiable now
+            self.resource._trigger_put(None)
 
 
 class Get(Event, ContextManager['Get'], Generic[ResourceType]):
@@ -93,6 +95,8 @@ class Get(Event, ContextManager['Get'], Generic[ResourceType]):
         """
         if not self.triggered:
             self.resource.get_queue.remove(self)
+            # the requests behind this one may be satisfiable now
+            self.resource._trigger_get(None)
 
 
 PutType = TypeVar('PutType', bound=Put)
